@@ -300,6 +300,16 @@ pub fn main(args: &[String]) {
                 pool.push(s.clone());
             }
         }
+        // bases without a path whose authority ends with a multi-byte character, and relatives that extend the authority
+        for b in ["a://\u{e9}", "http://\u{e9}", "a://b\u{e9}", "a://\u{e9}:80", "a://\u{1F600}", "a://\u{e9}/", "a://\u{e9}?q", "a://\u{e9}#f"] {
+            pool.push(b.to_string());
+            for ext in ["@h:/p", "a", "/p", ":8/p", "\u{e9}", "?x", "#y", "/"] {
+                let c = format!("{b}{ext}");
+                if Iri::new(c.as_str()).is_ok() {
+                    pool.push(c);
+                }
+            }
+        }
         // hierarchical families where relativisation is meant to work
         let segs = ["a", "b", "é", "a:b", ".", "..", ""];
         for _ in 0..400 {
@@ -316,6 +326,13 @@ pub fn main(args: &[String]) {
         }
         pool.sort();
         pool.dedup();
+        // every pair of the non-ASCII-authority family, both directions
+        let fam: Vec<String> = pool.iter().filter(|x| x.starts_with("a://\u{e9}") || x.starts_with("http://\u{e9}") || x.starts_with("a://b\u{e9}") || x.starts_with("a://\u{1F600}")).cloned().collect();
+        for b in &fam {
+            for i in &fam {
+                tr.emit(relativize_event(b, i, if (b.len() + i.len()) % 2 == 0 { 0 } else { 3 }));
+            }
+        }
         for _ in 0..npairs {
             let b = rng.pick(&pool).clone();
             // half of the time a close relative of the base (same document, sibling, child, parent)
